@@ -127,6 +127,8 @@ def validate_trace(ctx, trace, tag):
                                    "identity): %s" % json.dumps(line)[:600])
             if v.get("drift"):
                 ctx.note_drift("name_form", dict(inp=line["inp"], structs=line["structs"][:2]))
+            if v.get("dupnames"):
+                ctx.note_drift("duplicate_names", dict(inp=line["inp"], names=[x["name"] for x in line["structs"]]))
             if v["verdict"] == "ok":
                 ctx.traces += 1
                 continue
